@@ -10,7 +10,7 @@ RULE = ("multi-module worlds (types embedding other types by value, arrays of ty
         "(O2) are compared with the compiler's layout of the emitted item (tools/pv/rustlay.py; thorough tier: real rustc), "
         "with the size-check literal and with the declared size/align/packed attributes. non-trivial = accepted with at "
         "least 3 items compared; distinct by case text")
-ASSUMPTIONS = ["extern types have the layout they declare", "by-value `void` is outside the quantifier (C13 finding)",
+ASSUMPTIONS = ["extern types have the layout they declare", "by-value `void` is an open known finding (witness in the corpus); the generators do not produce it otherwise",
                "layouts come from a Python model of rustc's repr(C)/repr(int) rules, validated against the real compiler in the thorough tier"]
 
 def generate(rng, tier):
@@ -34,7 +34,11 @@ def judge(c, impl, model):
     for it in find(impl['o2'], 'items')[1:]:
         items2[tuple(it[1][1:])] = it
     seen = set()
+    tainted = void_tainted(crate)
+    cur = [None]
     def report(reason, detail):
+        if cur[0] in tainted and reason in ('C02/size', 'C02/size-check', 'C02/declared-size'):
+            reason += '/by-value-void'
         if reason not in seen:
             seen.add(reason)
             fs.append(Finding('O', reason, cid, detail))
@@ -49,6 +53,7 @@ def judge(c, impl, model):
         if str(it[3]) != 'defined':
             continue
         rp = 'crate::' + '::'.join(pth)
+        cur[0] = rp
         if rp not in crate.items:
             report('C02/item-not-emitted', rp); continue
         try:
